@@ -102,6 +102,17 @@ def observe(it, data_box, result):
     return S.mk_tuple([rv, data_box.fields["v"]] + finals)
 
 
+def patch_frame(o):
+    """C15 frame: applying an operation stores only into the document (its boxes) and into objects
+    the call allocated - never into the operation, its pointers or the patch."""
+    from contracts.purity import write_items
+
+    bad = [w for w in write_items(o.trace) if not ((w[0] == "mutate" and w[2] in ("FRESH", "DOC")) or (w[0] == "write" and w[1] == "DOC"))]
+    if bad:
+        return [("frame", [], z3.BoolVal(False), f"stores outside the document: {bad[:3]}")]
+    return [("frame", [], z3.BoolVal(True), "no store into the operation, its pointers or the patch on this path")]
+
+
 TOKEN_CLASSES = {
     "int": lambda t: Py.is_int(t),
     "dash": lambda t: t == S.mk_str("-"),
@@ -163,13 +174,13 @@ def _register_value_op_case(clsname, cls, specname, props, has_value, nonempty, 
             r = it.run_function(spec_fn(jspec, specname), a, {})
             return observe(it, dbox, r)
 
-        ctx.equiv(f"{cls.__name__}.apply", code, spec)
+        ctx.equiv(f"{cls.__name__}.apply", code, spec, post=patch_frame)
 
 
 _register_value_op("OpAdd", "op_add", ("C05", "C15"))
-_register_value_op("OpRemove", "op_remove", ("C05", "C20"), has_value=False)
-_register_value_op("OpReplace", "op_replace", ("C05", "C20"))
-_register_value_op("OpTest", "op_test", ("C05", "C20"))
+_register_value_op("OpRemove", "op_remove", ("C05", "C20", "C15"), has_value=False)
+_register_value_op("OpReplace", "op_replace", ("C05", "C20", "C15"))
+_register_value_op("OpTest", "op_test", ("C05", "C20", "C15"))
 
 
 # ------------------------------------------------------------------ move / copy: source and destination in the same container
@@ -179,7 +190,7 @@ def _register_move_copy(clsname, specname, src_class, dst_class):
 
     @contract(
         f"{clsname}.apply==RFC6902[{src_class}->{dst_class}]",
-        ("C05",),
+        ("C05", "C15"),
         [J + f"{clsname}.apply", J + "OpAdd.apply", "jsonpath.pointer:JSONPointer.is_relative_to"],
         replay=("patch_move_copy_replay", [clsname]),
     )
@@ -206,7 +217,7 @@ def _register_move_copy(clsname, specname, src_class, dst_class):
             dbox = new_box(it, data, "DOC")
             return observe(it, dbox, it.run_function(spec_fn(jspec, specname), [pointer_obj(it, src), pointer_obj(it, dst), dbox], {}))
 
-        ctx.equiv(f"{cls.__name__}.apply", code, spec)
+        ctx.equiv(f"{cls.__name__}.apply", code, spec, post=patch_frame)
 
 
 for _cn, _sn in (("OpMove", "op_move"), ("OpCopy", "op_copy")):
